@@ -749,6 +749,8 @@ def namespace():
     ns['FrozenInstanceError'] = _dcs.FrozenInstanceError
     import io as _io
     ns['StringIO'] = _io.StringIO
+    import types as _tys
+    ns['function'] = _tys.FunctionType
     ns['Condition'] = _ann.Condition
     ns['Tagged'] = _ann.Tagged
     import typing as _t
